@@ -175,14 +175,19 @@ StrTxMarks(s, ev, t, ok) ==
 (* operations that meet a key which once existed only inside a rolled-back transaction (st.aux.ghost) *)
 GhostTxMarks(s, ev, t, ok) ==
   LET G == s.aux.ghost
-      KOf(m) == IF m.t \in {"WReg", "WRec", "WBuy"} THEN "wrk" ELSE "bcn"
-  IN If(AnyMsg(ev, LAMBDA m : m.t \in {"WRec", "WBuy", "BRec", "BBuy"} /\ <<KOf(m), m.id, m.owner>> \in G /\ ChExists(s, KOf(m), m.id)
-                               /\ ChOf(s, KOf(m), m.id).owner # m.owner), "ghost:registry-write-by-rolled-back-owner")
-     \cup If(AnyMsg(ev, LAMBDA m : m.t \in {"WRec", "WBuy", "BRec", "BBuy"} /\ ChExists(s, KOf(m), m.id) /\ ChOf(s, KOf(m), m.id).owner = m.owner
-                               /\ \E g \in G : g[1] = KOf(m) /\ g[2] = m.id /\ g[3] # m.owner), "ghost:owner-write-on-reused-id")
-     \cup If(ok /\ AnyMsg(ev, LAMBDA m : m.t \in {"WReg", "BReg"} /\ \E g \in G : g[1] = KOf(m) /\ g[2] = s[KOf(m)].next /\ g[3] # m.owner), "ghost:registration-reuses-rolled-back-id")
+      Rec(k) == IF k = "wrk" THEN "WRec" ELSE "BRec"
+      Buy(k) == IF k = "wrk" THEN "WBuy" ELSE "BBuy"
+      Reg(k) == IF k = "wrk" THEN "WReg" ELSE "BReg"
+  IN UNION { If(AnyMsg(ev, LAMBDA m : m.t \in {Rec(k), Buy(k)} /\ <<k, m.id, m.owner>> \in G /\ ChExists(s, k, m.id) /\ ChOf(s, k, m.id).owner # m.owner),
+                "ghost:" \o k \o ":write-by-rolled-back-owner")
+             \cup If(AnyMsg(ev, LAMBDA m : m.t \in {Rec(k), Buy(k)} /\ ChExists(s, k, m.id) /\ ChOf(s, k, m.id).owner = m.owner
+                                          /\ \E g \in G : g[1] = k /\ g[2] = m.id /\ g[3] # m.owner), "ghost:" \o k \o ":owner-write-on-reused-id")
+             \cup If(ok /\ AnyMsg(ev, LAMBDA m : m.t = Reg(k) /\ \E g \in G : g[1] = k /\ g[2] = s[k].next), "ghost:" \o k \o ":registration-reuses-rolled-back-id")
+             \* a purchase that ran inside a rolled-back transaction (the limit must be what it was), then another operation on the registration
+             \cup If(AnyMsg(ev, LAMBDA m : m.t \in {Rec(k), Buy(k)} /\ <<k \o "-limit", m.id, "-">> \in G), "ghost:" \o k \o ":op-after-rolled-back-purchase")
+           : k \in {"wrk", "bcn"} }
      \cup If(AnyMsg(ev, LAMBDA m : m.t = "Decide" /\ \E g \in G : g[1] = "po" /\ g[2] = m.id), "ghost:decide-on-rolled-back-order-id")
-     \cup If(ok /\ AnyMsg(ev, LAMBDA m : m.t = "Raise" /\ \E g \in G : g[1] = "po" /\ g[2] = s.ent.next /\ g[3] # m.pur), "ghost:raise-reuses-rolled-back-id")
+     \cup If(ok /\ AnyMsg(ev, LAMBDA m : m.t = "Raise" /\ \E g \in G : g[1] = "po" /\ g[2] = s.ent.next), "ghost:raise-reuses-rolled-back-id")
      \cup If(AnyMsg(ev, LAMBDA m : m.t \in {"SCreate", "SClaim", "STopUp", "SRate", "SCancel"} /\ <<"str", SKey(m.receiver, m.sender), "-">> \in G),
              "ghost:stream-op-on-rolled-back-pair")
 
@@ -243,7 +248,8 @@ AllLabels == <<
   "rate:live-with-elapsed-seconds", "rate:expired", "rate:drained", "topup:live-with-elapsed-seconds", "topup:expired-with-remainder",
   "topup:drained", "cancel:live-with-elapsed-seconds", "cancel:expired", "cancel:drained", "create:second-stream-same-denomination",
   "create:reverse-direction-exists", "stream:two-ops-in-one-tx", "stream:multi-message-tx-fails",
-  "ghost:registry-write-by-rolled-back-owner", "ghost:owner-write-on-reused-id", "ghost:registration-reuses-rolled-back-id",
+  "ghost:wrk:write-by-rolled-back-owner", "ghost:bcn:write-by-rolled-back-owner", "ghost:wrk:owner-write-on-reused-id", "ghost:bcn:owner-write-on-reused-id",
+  "ghost:wrk:registration-reuses-rolled-back-id", "ghost:bcn:registration-reuses-rolled-back-id", "ghost:wrk:op-after-rolled-back-purchase", "ghost:bcn:op-after-rolled-back-purchase",
   "ghost:decide-on-rolled-back-order-id", "ghost:raise-reuses-rolled-back-id", "ghost:stream-op-on-rolled-back-pair",
   "ghostparams:tally-outcome-would-differ", "ghostparams:registry-op", "ghostparams:stream-release", "ghostparams:decision",
   "feegrant:registry-tx-of-locked-holder-paid-by-granter", "feegrant:registry-tx-paid-by-granter", "feegrant:other-tx-paid-by-granter",
